@@ -288,6 +288,10 @@ def _combine(op, a, b):
     if op == LAND:
         return _land(a, b)
     if op in (MIN, MAX):
+        # +-inf are the neutral elements ranks without data contribute
+        for x, y in ((a, b), (b, a)):
+            if isinstance(x, float) and x == (float('inf') if op == MIN else float('-inf')):
+                return y
         if isinstance(a, symx.Sym) or isinstance(b, symx.Sym):
             c = (a <= b) if op == MIN else (a >= b)
             return symx.ite(c, a, b)
